@@ -265,7 +265,14 @@ func (b *Buffer) fromBytes(data []byte) *goja.Object {
 	return o
 }
 
+// maxFromDepth bounds how many times Buffer.from follows valueOf() / Symbol.toPrimitive results.
+const maxFromDepth = 32
+
 func (b *Buffer) _from(args ...goja.Value) *goja.Object {
+	return b.fromDepth(0, args...)
+}
+
+func (b *Buffer) fromDepth(depth int, args ...goja.Value) *goja.Object {
 	if len(args) == 0 {
 		panic(errors.NewTypeError(b.r, errors.ErrCodeInvalidArgType, "The first argument must be of type string or an instance of Buffer, ArrayBuffer, or Array or an Array-like Object. Received undefined"))
 	}
@@ -296,20 +303,20 @@ func (b *Buffer) _from(args ...goja.Value) *goja.Object {
 					if err != nil {
 						panic(err)
 					}
-					if valueOf != o {
+					if valueOf != o && depth < maxFromDepth {
 						args[0] = valueOf
-						return b._from(args...)
+						return b.fromDepth(depth+1, args...)
 					}
 				}
 
-				if s := o.GetSymbol(goja.SymToPrimitive); s != nil {
+				if s := o.GetSymbol(goja.SymToPrimitive); s != nil && depth < maxFromDepth {
 					if f, ok := goja.AssertFunction(s); ok {
 						str, err := f(o, b.r.ToValue("string"))
 						if err != nil {
 							panic(err)
 						}
 						args[0] = str
-						return b._from(args...)
+						return b.fromDepth(depth+1, args...)
 					}
 				}
 			}
